@@ -88,6 +88,22 @@ def non_test_code(src):
     return "\n".join(out)
 
 
+KEEP = set("""as let mut if else return match in for while loop fn pub const static unsafe true false self Self
+crate super mod use impl where ref move break continue dyn struct enum trait type
+u8 u16 u32 u64 u128 usize i8 i16 i32 i64 i128 isize bool char str""".split())
+_IDENT = re.compile(r"(?<![.\w:])([a-z_][a-z0-9_]*)\b(?!\s*(?:\(|::|!))")
+
+
+def normalise(line):
+    """A site is recorded up to renaming of plain local identifiers (lower-case names that are not
+    keywords/primitive types, not a field or method (preceded by `.`), not a path segment or a call):
+    the inventory is about the arithmetic performed, not about what the operands are called, so a
+    rename of a local does not break the tie while any change to an operation, cast, constant, field
+    or callee does."""
+    line = re.sub(r"\s+", " ", line.strip())
+    return _IDENT.sub(lambda m: m.group(1) if m.group(1) in KEEP else "_", line)
+
+
 def inventory():
     inv = {}
     for crate in CRATES:
@@ -103,7 +119,7 @@ def inventory():
                 sites = []
                 for line in src.split("\n"):
                     if HAZARD.search(line):
-                        sites.append(re.sub(r"\s+", " ", line.strip()))
+                        sites.append(normalise(line))
                 inv[rel] = sorted(sites)
     return inv
 
